@@ -6,6 +6,7 @@ type IllegalParam struct {
 	paramName  string
 	paramValue string
 	funcName   string
+	stacks     []Frame
 }
 
 // Error 返回错误字符串
@@ -26,18 +27,23 @@ func (i *IllegalParam) Cause() error {
 	return i.cause
 }
 
+// StackTrace 获取错误的堆栈信息
+func (i *IllegalParam) StackTrace() []Frame {
+	return i.stacks
+}
+
 // NewIllegalParamError 创建参数异常
 // paramName 参数名
 // paramValue 参数值
 func NewIllegalParamError(paramName string, paramValue string) error {
-	return &IllegalParam{paramName: paramName, paramValue: paramValue}
+	return &IllegalParam{paramName: paramName, paramValue: paramValue, stacks: trace(2)}
 }
 
 // NewIllegalParamCError 创建参数异常
 // paramName 参数名
 // paramValue 参数值
 func NewIllegalParamCError(paramName string, paramValue string, cause error) error {
-	return &IllegalParam{paramName: paramName, paramValue: paramValue, cause: cause}
+	return &IllegalParam{paramName: paramName, paramValue: paramValue, cause: cause, stacks: trace(2)}
 }
 
 // NewIllegalCallError 创建参数异常
@@ -45,5 +51,5 @@ func NewIllegalParamCError(paramName string, paramValue string, cause error) err
 // paramName 参数名
 // paramValue 参数值
 func NewIllegalCallError(funcName string, paramName string, paramValue string) error {
-	return &IllegalParam{funcName: funcName, paramName: paramName, paramValue: paramValue}
+	return &IllegalParam{funcName: funcName, paramName: paramName, paramValue: paramValue, stacks: trace(2)}
 }
